@@ -281,10 +281,16 @@ func c13Check(ci interface{}) lib.Outcome {
 		if nm == nil || nm.Name != fmt.Sprintf("key%d", i) || nm.Confidence != 1.0 {
 			return lib.Outcome{Violation: fmt.Sprintf("%s: NearestMatch(value %d) = %+v, want {key%d 1}", desc, i, nm, i)}
 		}
+		if nm.Offset < 0 || nm.Extent < 0 || nm.Offset+nm.Extent > len(nv) {
+			return lib.Outcome{Violation: fmt.Sprintf("%s: NearestMatch(value %d) reports Offset %d Extent %d, outside the %d-byte normalised input", desc, i, nm.Offset, nm.Extent, len(nv))}
+		}
 	}
 	nm := cl.NearestMatch(unknown)
 	if nm != nil && nm.Name != "" && !(nm.Confidence > 0 && nm.Confidence <= 1) {
 		return lib.Outcome{Violation: fmt.Sprintf("%s: NearestMatch(unknown) reported confidence %v", desc, nm.Confidence)}
+	}
+	if nm != nil && nm.Name != "" && (nm.Offset < 0 || nm.Extent < 0 || nm.Offset+nm.Extent > len(nu)) {
+		return lib.Outcome{Violation: fmt.Sprintf("%s: NearestMatch(unknown) reports Offset %d Extent %d, outside the %d-byte normalised unknown", desc, nm.Offset, nm.Extent, len(nu))}
 	}
 	var classes []string
 	if meta {
